@@ -46,11 +46,14 @@ def case(job):
         tc = ""
     if empty_t:
         tt = ""
+    # in a quarter of the git projects a version tag is AHEAD of the configured version: the old version of the placeholders is the tag's
+    tag_ahead = tool == "git" and seed % 4 == 3
+    old, new, oldpep, newpep = ("v1.2.7-beta", "v1.2.8-beta", "1.2.7b0", "1.2.8b0") if tag_ahead else (OLD, NEW, "1.2.3b0", "1.2.4b0")
     with drive.scratch_dir("c12") as d:
         proj = project.Project(os.path.join(d, "p"), vcs=tool, gitfile=(seed % 5 == 2))
         fv = fakevcs.FakeVCS(os.path.join(d, "fake"), tool)
         if tool == "git":
-            fv.set(tags=[], status="", branches="* main 1234abc [origin/main] msg\n", remote="")
+            fv.set(tags=["v1.2.7-beta", "v1.0.0"] if tag_ahead else [], status="", branches="* main 1234abc [origin/main] msg\n", remote="")
         else:
             fv.set(tags=[], status="", remote="default = https://example.com/r\n")
         extra = {}
@@ -78,7 +81,7 @@ def case(job):
         r = drive.cli(args, cwd=proj.root, env=fv.env())
         raw = fv.log()
         filemsg = fv.hg_commit_message()
-    kw = dict(old=glue.cp(OLD), new=glue.cp(NEW), oldpep=glue.cp("1.2.3b0"), newpep=glue.cp("1.2.4b0"))
+    kw = dict(old=glue.cp(old), new=glue.cp(new), oldpep=glue.cp(oldpep), newpep=glue.cp(newpep))
     evs = []
     added = []
     for e in raw:
@@ -97,11 +100,11 @@ def case(job):
                 ev["values"] = dict(logfile=glue.cp(argv[-1]))
                 ev["filemsg"] = glue.cp(filemsg or "")
         elif e[1] == "tag":
-            ev.update(template=glue.cp(tt), cli=cli_t and not light, values=dict(tag=glue.cp(NEW)))
+            ev.update(template=glue.cp(tt), cli=cli_t and not light, values=dict(tag=glue.cp(new)))
         elif e[1] == "tag_light":
-            ev["values"] = dict(tag=glue.cp(NEW))
+            ev["values"] = dict(tag=glue.cp(new))
         elif e[1] == "push_tag":
-            ev["values"] = dict(tag=glue.cp(NEW), remote=glue.cp("origin"))
+            ev["values"] = dict(tag=glue.cp(new), remote=glue.cp("origin"))
         elif e[1] == "push":
             ev["values"] = dict(remote=glue.cp("origin"))
         ev["dbg"] = "%s %s argv=%r | commit tmpl(%s)=%r tag tmpl(%s)=%r files=%r" % (tool, e[1], argv, "cli" if cli_c else "cfg", tc, "cli" if cli_t else "cfg", tt, names)
